@@ -12,6 +12,7 @@ definitions (structural recursion; the two `while` loops carry fuel, shown never
 -/
 import WzVerif.Lemmas.HttpSafeKeys
 import WzVerif.Lemmas.HttpTermEtag
+import WzVerif.Lemmas.RequestAttrs
 namespace Wz.Props.C07
 open Wz Wz.Http
 
@@ -150,18 +151,68 @@ theorem request_scalar_attrs_total_safe (a b : Option Str) :
     Safe (requestMaxForwards a) ∧ Safe (getContentLength a b) ∧ Safe (requestAccessControlRequestHeaders a) :=
   ⟨requestMaxForwards_safe a, getContentLength_safe a b, requestAcrh_safe a⟩
 
+/-! ### the lazily parsed attributes of `Request` (Model/RequestAttrs.lean) -/
+
+/-- every character is a latin-1 code point (PEP 3333: what every environ string is) -/
+abbrev Latin1 := Wz.Req.Latin1
+
+/-- **`request_attr_total_safe`** — for every environ `e` (every header value an arbitrary text, the
+query string latin-1 as WSGI guarantees), every configuration (`trusted_hosts`, server name/port,
+scheme) and each of the 24 modelled attributes
+`args, cookies, accept_mimetypes, accept_charsets, accept_encodings, accept_languages,
+cache_control, if_match, if_none_match, if_modified_since, if_unmodified_since, if_range, date,
+range, authorization, mimetype, mimetype_params, is_json, content_length, max_forwards,
+access_control_request_headers, pragma, access_route, host`:
+reading the attribute returns a value — or, for `host` with `trusted_hosts` set, raises
+`SecurityError` (a `BadRequest`, i.e. an HTTPException). Nothing else can escape.
+`parse_date`, the idna codec and `codecs.lookup` are parameters (any total functions). -/
+theorem request_attr_total_safe (x : Wz.Req.Ext) (e : Wz.Req.Env) (a : Wz.Req.Attr)
+    (h : Latin1 e.queryString = true) :
+    Wz.Req.outcome x e a = .ok () ∨
+      (a = .host ∧ e.trustedHosts.isSome = true ∧ Wz.Req.outcome x e a = .error "SecurityError") :=
+  Wz.Req.outcome_spec x e a h
+
+example : Latin1 "a=\u00ff&b=%ff".toList = true := by decide
+
+/-- without `trusted_hosts` (the default) no modelled attribute raises at all -/
+theorem request_attr_total_safe_default (x : Wz.Req.Ext) (e : Wz.Req.Env) (a : Wz.Req.Attr)
+    (h : Latin1 e.queryString = true) (ht : e.trustedHosts = none) : Wz.Req.outcome x e a = .ok () := by
+  rcases Wz.Req.outcome_spec x e a h with h1 | ⟨_, h2, _⟩
+  · exact h1
+  · rw [ht] at h2; simp at h2
+
+/-- the `SecurityError` branch is real: an untrusted Host is refused with an HTTP exception -/
+theorem request_host_untrusted :
+    Wz.Req.host Wz.Dbg.asciiIdna { host := some "evil.example".toList, trustedHosts := some ["localhost".toList] }
+      = .error "SecurityError" := by decide +kernel
+
+/-- the latin-1 hypothesis is what rules out `UnicodeEncodeError` from
+`environ["QUERY_STRING"].encode("latin1")` (not client-reachable: servers hand over latin-1) -/
+theorem request_args_needs_latin1 : Wz.Req.args { queryString := [Char.ofNat 0x100] } = .error "UnicodeEncodeError" := by
+  decide
+
+/-- what the application then does with an Accept object — membership, `quality`, `best_match` — is a
+total function of the parsed list and the offers (Model/Accept.lean, C17); the only exception in that
+layer, `MIMEAccept`'s ValueError for a malformed *offer*, is application-side and does not occur for
+well-formed offers, whatever the client sent -/
+theorem accept_use_never_raises_on_wellformed_offers (self : List (Wz.Accept.Str × Wz.Accept.Q)) (offer : Wz.Accept.Str)
+    (h : Wz.Accept.mimeOfferInvalid offer = false) : Wz.Accept.mimeRaises self offer = false := by
+  simp [Wz.Accept.mimeRaises, h]
+
+example : Wz.Accept.mimeOfferInvalid "text/html".toList = false := by decide
+
 /-
 -- OPEN (known finding F07d): `Request.url/base_url/host_url/root_url/url_root` pass the Host header
 --   through `urllib.parse.urlsplit(...).port/.hostname`, which raise ValueError for a non-numeric or
 --   out-of-range port and for unbalanced / invalid `[...]`. `urlsplit` is Python's and is not
---   modelled; the failing family is replayed on the real code by the harness on every run.
+--   modelled; these five attributes are the explicit exclusion of `request_attr_total_safe`; the
+--   failing family is replayed on the real code by the harness on every run.
 -- OPEN: `parse_date` wraps `email.utils.parsedate_to_datetime` in
 --   `except (TypeError, ValueError, OverflowError)` (OverflowError since repair c7e3c04, former
---   finding F07f). `email.utils` is Python's; which classes it can raise is not modelled (only its
---   IMF-fixdate restriction, Model/Date.lean) - the oracle of stream `hostile` watches it.
--- OPEN: the remaining `Request` attributes are one header lookup followed by one of the parsers
---   above (their safety is the parser's), or go through cookies / form parsing / URL assembly, which
---   are other properties' models; all of them are exercised on the real code by stream `hostile`.
+--   finding F07f). `email.utils` is Python's: in `request_attr_total_safe` it is a parameter
+--   (a total function); that it raises no other class is watched by the oracle of stream `hostile`.
+-- OPEN: `form`, `files`, `data`, `json`, `values`, `stream` go through the body parsers (C01, C02, C10's
+--   models) and are exercised on the real code by stream `hostile` only.
 -/
 
 end Wz.Props.C07
